@@ -556,9 +556,13 @@ func (vr *variableResolver) resolve(ctx *ExecutionContext) (*Value, error) {
 			if rv.Type() != typeOfValuePtr {
 				current = reflect.ValueOf(rv.Interface())
 			} else {
-				// Return the function call value
-				current = rv.Interface().(*Value).val
-				isSafe = rv.Interface().(*Value).safe
+				// Return the function call value (a nil *Value is the empty value)
+				if pv := rv.Interface().(*Value); pv != nil {
+					current = pv.val
+					isSafe = pv.safe
+				} else {
+					current = reflect.Value{}
+				}
 			}
 		}
 
